@@ -138,7 +138,7 @@ type structCrashCfg struct {
 
 func structCrashProperty(t *rapid.T, sc structCrashCfg) {
 	prop, maxPts := sc.Prop, sc.MaxPts
-	size := uint64(rapid.IntRange(2600, 5200).Draw(t, "disksize"))
+	size := uint64(rapid.IntRange(3800, 5600).Draw(t, "disksize"))
 	unstable := rapid.IntRange(0, 3).Draw(t, "unstable") > 0
 	salt := rapid.Uint64().Draw(t, "salt")
 	cr, err := NewCrashRun(size, unstable, prop)
@@ -152,7 +152,7 @@ func structCrashProperty(t *rapid.T, sc structCrashCfg) {
 			x.S.Stop()
 		}
 	}()
-	x.Budget = int64(size-1540) / 2
+	x.Budget = int64(size-1540) * 2 / 3
 	cfg := DefaultCfg()
 	cfg.BadRefs, cfg.WrongKind, cfg.Restarts, cfg.MaxWriteBlks = 2, 2, false, 10
 	excluded := 0
@@ -240,9 +240,13 @@ func structCrashProperty(t *rapid.T, sc structCrashCfg) {
 	if !cut {
 		var big *MNode
 		for _, f := range x.M.LiveKind(nt.NF3REG) {
-			if f.Size > 515*BlockSize {
+			// prefer the file with the most real blocks: its free takes several shrinker transactions
+			if f.Size > 515*BlockSize && (big == nil || len(f.Blocks) > len(big.Blocks)) {
 				big = f
 			}
+		}
+		if big != nil && len(big.Blocks) > 520 {
+			St.Class("programs_ending_with_the_free_of_a_dense_file")
 		}
 		if big == nil {
 			if files := x.M.LiveKind(nt.NF3REG); len(files) > 0 {
